@@ -173,6 +173,16 @@ Definition cell_map (d : disp) (p : pos) : option pos :=
   | DNone => Some (row, col)
   end.
 
+(* argument validation of insert_rows / insert_columns (index test added by fix F27, commit
+   3e01966) and of delete_rows / delete_columns, in the code's order: count > 0, then the index
+   on the grid, then (delete only) the last deleted line on the grid. [delta > 0] = insert of
+   [delta] lines, [delta < 0] = delete of [- delta] lines. The workbook-dependent tests (array
+   formulas, sheet dimension) come after these and are not part of this function. *)
+Definition edit_valid (last at_ delta : Z) : bool :=
+  if 0 <? delta then (1 <=? at_) && (at_ <=? last)
+  else if delta <? 0 then (1 <=? at_) && (at_ <=? last) && (at_ + (- delta) - 1 <=? last)
+  else false.
+
 (* ---- block moves --------------------------------------------------------------------- *)
 (* the permutation a move of the block [i, i+n) by [d] is meant to be *)
 Definition block_move (i n d x : Z) : Z :=
